@@ -152,8 +152,15 @@ func nameStress(thorough bool) []prog {
 		f.Add(&idl.Struct{Cat: "struct", Name: "S0", Fields: []*idl.Field{fld(1, n, i32), {ID: 2, ExplicitID: true, Name: "other", Type: str, Req: idl.ReqOptional}, {ID: 3, ExplicitID: true, Name: "Other2", Type: idl.ListOf(i32), Req: idl.ReqRequired}}})
 		f.Add(&idl.Struct{Cat: "union", Name: "U0", Fields: []*idl.Field{fld(1, n, i32), fld(2, "other", str)}})
 		f.Add(ex)
-		f.Add(&idl.Service{Name: "Svc0", Functions: []*idl.Function{{Name: "get", Ret: i32, Args: []*idl.Field{fld(1, n, i32), fld(2, "other", str)}, Throws: []*idl.Field{fld(1, n, idl.StructT(ex))}}}})
+		f.Add(&idl.Service{Name: "Svc0", Functions: []*idl.Function{{Name: "get", Ret: i32, Args: []*idl.Field{fld(1, n, i32), fld(2, "other", str)}, Throws: []*idl.Field{fld(1, "thr0", idl.StructT(ex))}}}})
 		out = append(out, prog{"name:field", n, single(n, f), false})
+		// exception name in a throws list (alone, and next to an argument of the same name)
+		f = mk()
+		ex = &idl.Struct{Cat: "exception", Name: "Ex0", Fields: []*idl.Field{fld(1, "m", str)}}
+		f.Add(ex)
+		f.Add(&idl.Service{Name: "Svc0", Functions: []*idl.Function{{Name: "get", Ret: i32, Args: []*idl.Field{fld(1, "a", i32)}, Throws: []*idl.Field{fld(1, n, idl.StructT(ex))}},
+			{Name: "both", Args: []*idl.Field{fld(1, n, str)}, Throws: []*idl.Field{fld(1, n, idl.StructT(ex))}}, {Name: "second", Ret: str, Args: []*idl.Field{fld(1, "first", i32), fld(2, n, idl.ListOf(i32))}}}})
+		out = append(out, prog{"name:throws", n, single(n, f), false})
 		// enum name and enum value name
 		f = mk()
 		e := &idl.Enum{Name: n, Values: []*idl.EnumValue{{Name: "A"}, {Name: "B"}}}
@@ -478,6 +485,9 @@ func main() {
 			add("consts", w.Name, p, "go", nil, true)
 			if thorough {
 				add("consts", w.Name, p, "fastgo", nil, true)
+			}
+			if thorough || strings.Contains(w.Name, "struct") {
+				// representation-changing options matter where struct values sit in containers / literals
 				add("consts", w.Name, p, "go", []string{"value_type_in_container", "enum_as_int_32"}, true)
 			}
 		}
